@@ -38,3 +38,39 @@ class Killer(Process):
         if self.k == self.parameters['at']:
             return {'agents': {'_delete': [self.parameters['key']]}}
         return {}
+
+
+class Setter(Process):
+    """sets the shared counter to twice what it sees (does not commute with the accumulating processes)"""
+    defaults = {'pid': 0, 'time_step': 1.0}
+
+    def ports_schema(self):
+        return {'shared': {'count': {'_default': 0, '_emit': True}},
+                'own': {'elapsed': {'_default': 0.0, '_emit': True}}}
+
+    def next_update(self, timestep, states):
+        return {'shared': {'count': {'_value': 2 * states['shared']['count'] + 1, '_updater': 'set'}},
+                'own': {'elapsed': timestep}}
+
+
+_MANY = []
+
+
+def many_functions(n=6000):
+    """n distinct functions (distinct code objects: one profile entry each)"""
+    if not _MANY:
+        src = '\n'.join('def f%d(x):\n    return x + %d' % (i, i) for i in range(n))
+        env = {}
+        exec(compile(src, '<verif-many>', 'exec'), env)
+        _MANY.extend(env['f%d' % i] for i in range(n))
+    return _MANY
+
+
+class Busy(Acc):
+    """as Acc, but every call runs thousands of distinct functions, so that a profiled worker has a large
+    profile to hand back when it is ended"""
+    def next_update(self, timestep, states):
+        x = 0
+        for f in many_functions():
+            x = f(x)
+        return super().next_update(timestep, states)
